@@ -59,7 +59,9 @@ CHECKS['C05'] = dict(
           'with unique keys: empty difference with itself/its clone (C05_self); closure of attribute changes — for any '
           'two versions of a field with the same type and relation the hinted ChangeField leaves no difference in '
           'either direction (C05_closure_changeField, every attribute alone or in combination); closure of added '
-          'fields (C05_closure_addField); proved counterexamples for re-targeted relations (F5) and == vs diff() (F6). '
+          'fields (C05_closure_addField); the hinted ChangeMeta mutations resolve the Meta difference of any two model versions, '
+          'every subset of the five tracked properties, on a backend that supports the ones that differ (C05_closure_meta; '
+          'the hint ends with exactly these mutations: hintModel_ends_with_metas); proved counterexamples for re-targeted relations (F5) and == vs diff() (F6). '
           '_ATTRIBUTE_DEFAULTS and the lookup order of get_attr_default (C05_source_default_order) are extracted from source; diff dictionaries, hinted mutations and the residual diff '
           'after simulation are compared with the real code on generated signature pairs.'),
     design='§5 C05',
